@@ -5,6 +5,7 @@
   be).  Comparison with the implementation's observation happens in the orchestrator.
 -/
 import Reclass.Driver.Codec
+import Reclass.Driver.InvOps
 namespace Reclass.Ops
 open Lean Reclass Reclass.Codec
 
@@ -69,6 +70,14 @@ def opParse (j : Json) : Except String Json := do
     | none => Json.null
     | some t => tokenToJson t) r)])
 
+/-- op `abs`: `Node::abs_class_name`. -/
+def opAbs (j : Json) : Except String Json := do
+  let cls ← j2s (← getField j "cls")
+  let loc ← match j.getObjVal? "loc" with
+    | .ok (.arr a) => do pure (some (← a.toList.mapM j2s))
+    | _ => pure none
+  pure (Json.mkObj [("model", Json.mkObj [("ok", s2j (absClassName loc cls))])])
+
 def dispatch (j : Json) : Except String Json := do
   let op ← (← getField j "op").getStr?
   match op with
@@ -76,6 +85,8 @@ def dispatch (j : Json) : Except String Json := do
   | "ulists" => opULists j
   | "params" => opParams j
   | "parse" => opParse j
+  | "inventory" => InvOps.opInventory j
+  | "abs" => opAbs j
   | _ => throw s!"unknown op {op}"
 
 def handleLine (line : String) : String :=
